@@ -482,7 +482,14 @@ func (s *State) enterLoop(l *Loop) {
 		_ = safeSpec(func() { s.assume(env.evalBool(c.Expr)) })
 	}
 	lf.Head = s.snapshot()
-	if l.Spec != nil && l.Spec.Decreases != nil {
+	// termination (C19): every loop that is not a range over a slice or map needs a measure; "decreases *" states that
+	// termination is deliberately not claimed (listed as an assumption)
+	if l.RangeIdx == nil && l.MapRange == nil && (l.Spec == nil || l.Spec.Decreases == nil) && s.spec != nil && hasProp(allProps(s.spec), "C19") {
+		s.oblige1("termination", "no-measure:"+l.Name, []string{"C19"}, "false", where, "loop without a decreases clause")
+	}
+	if l.Spec != nil && l.Spec.Decreases != nil && l.Spec.Decreases.Src == "*" {
+		s.eng.assumptionsUsed["termination of loop "+l.Name+" in "+s.eng.fnKey(s.fn)+" is not claimed (decreases *)"] = true
+	} else if l.Spec != nil && l.Spec.Decreases != nil {
 		env.iter = lf.Head
 		_ = safeSpec(func() { lf.Measure = s.define("measure", sInt, env.eval(l.Spec.Decreases.Expr).Terms[0]) })
 	}
@@ -508,7 +515,7 @@ func (s *State) closeIteration(lf *loopFrame) {
 			s.coll.specErr(s.eng, s.fn, c, err)
 		}
 	}
-	if l.Spec != nil && l.Spec.Decreases != nil && lf.Measure != "" {
+	if l.Spec != nil && l.Spec.Decreases != nil && lf.Measure != "" && l.Spec.Decreases.Src != "*" {
 		c := l.Spec.Decreases
 		err := safeSpec(func() {
 			m := env.eval(c.Expr).Terms[0]
